@@ -1372,7 +1372,7 @@ func runDyn(p *core.Prog, r *core.Report, ruleName string, entries []DynEntry, u
 				if T == nil || len(vf.Params) != 2 {
 					continue
 				}
-				af := p.Func("(*" + T.Obj().Name() + ").Applies")
+				af := p.Func("(*" + core.KnownTypeName(T) + ").Applies")
 				if af == nil || len(af.Params) != 3 {
 					continue
 				}
@@ -1386,7 +1386,7 @@ func runDyn(p *core.Prog, r *core.Report, ruleName string, entries []DynEntry, u
 					if !may {
 						continue
 					}
-					applies[T.Obj().Name()] = append(applies[T.Obj().Name()], a.String())
+					applies[core.KnownTypeName(T)] = append(applies[core.KnownTypeName(T)], a.String())
 					di.run(vf, []aval{{k: avValid}, dyn(a)}, 0)
 					nRuns++
 				}
